@@ -37,6 +37,8 @@ theorem add_argument_eq (cfg : Cfg) (st : State) (name : Option (List Char)) (a 
         by_cases h : n > cfg.ssizeMax
         · simp [h, liftAddErr]
         · simp only [h, decide_false, Bool.false_eq_true, if_false]
+          have hfl : ∀ x : Nat, (0 = x) = (x = 0) := fun x => propext eq_comm
+          try simp only [hfl]
           cases next with
           | none => simp [Except.bind, liftAddErr]
           | some k =>
@@ -293,6 +295,9 @@ theorem field_init_eq (cfg : Cfg) (st : State) (f : RawField) (hfmt : ∀ fm, f.
               simp only []
               generalize "bcdoxX".toList.contains c = b2
               generalize "eEfFgG%".toList.contains c = b3
+              -- both orientations of the comparisons with a literal
+              have hfl : ∀ x : Char, (x = c) = (c = x) := fun x => propext eq_comm
+              try simp only [hfl]
               by_cases h1 : c = 's'
               · subst h1; simp
               · by_cases h4 : c = 'n'
@@ -317,6 +322,8 @@ theorem field_init_eq (cfg : Cfg) (st : State) (f : RawField) (hfmt : ∀ fm, f.
           refine bind_congr' ?align (fun tp3 htp3 => ?_)
           case align =>
             simp only [mAlign, tpAlign, TySet.numeric, mAlignVal]
+            have hfl : ∀ x : Option Char, (some '=' = x) = (x = some '=') := fun x => propext eq_comm
+            try simp only [hfl]
             by_cases ha : (if (spec.align.isNone && spec.zero) = true then some '=' else spec.align) = some '='
             · simp only [ha, decide_true, if_true, beq_self_eq_true]
               cases (tp2.inter ⟨false, true, true⟩).isEmpty <;> simp
